@@ -222,7 +222,9 @@ func (sc *pScn) op(w []string) {
 	case "new": // new <sid> <k>: create group k, owner = the session's user, default access JRWPS for authenticated users
 		si := at(0)
 		vs := sc.session(si)
-		vs.s.background = len(a) > 2 && a[2] == "1"
+		if len(vs.s.subs) == 0 {
+			vs.s.background = len(a) > 2 && a[2] == "1"
+		}
 		sc.send(si, `{"sub":{"id":"`+id+`","topic":"new`+id+`x","set":{"desc":{"defacs":{"auth":"JRWPS","anon":"N"}}}}}`)
 		sc.quiet()
 		// find the name in the reply without consuming frames
